@@ -27,6 +27,8 @@ CORE = [
     'style=server,oc=short,od=0,or=consume,closers=0,ev=d5.d3,ncb=1',
     'style=client,od=0,or=consume,closers=0,ev=d5.d3.h,setreq=1,ncb=1',
     'style=client,od=0,or=consume,closers=1,ev=d5.h,setreq=1,ncb=1',
+    'style=client,od=0,or=consume,closers=0,ev=d5,setreq=1,ncb=1',
+    'style=client,od=0,or=partial,closers=0,ev=d5.d3,setreq=1,ncb=1',
     'style=server,oc=none,od=0,or=consume,closers=0,ev=d5.d3,rel=1,ncb=1',
     # C09: OnConnect duration x peer close x user close inside callbacks
     'style=server,oc=short,od=1,or=none,closers=0,ev=h,ncb=1',
